@@ -10,7 +10,7 @@ Property theorems only (helper lemmas: `Lemmas/FileFormat.lean`, `Lemmas/FileRou
   `c14.arr_to`, `c14.fromfile`, `c14.arr_from`, `c14.open`, `c14.reduce`, `c14.unpickle`.  Every theorem below is stated on
   these generated definitions.
 * `fromFileSpec`, `arrayFromFileSpec` (Model/FileFormat.lean) are hand-written normal forms of the readers;
-  `C14_reader_translated` proves the generated readers equal to them (so a change of any translated reader statement breaks
+  `C14_reader_translated` / `C14_array_reader_translated` prove the generated readers equal to them (so a change of any translated reader statement breaks
   that theorem and, through it, every round-trip theorem).  The constructor `construct` is hand-written, tied by K.
 * Numbers are opaque tokens (`Tok`: non-empty, free of Python whitespace) in the file model.  What is assumed of
   `'%.{p}g' % x` and numpy's text parser is the explicit hypothesis structure `FmtContract` (Lemmas/FileValues.lean):
@@ -54,14 +54,140 @@ theorem C14_array_writer_lines (comments : List Str) (shape : List Nat) (dataRow
   simp [List.flatMap_append, term, dimsPart, tofileSep, NL]
 
 
-/-- **T obligation for the readers.**  The readers GENERATED statement by statement from the current source of
-    `Spectrum.from_file` / `Numerics.array_from_file` (comment loop, header split, old/new format detection, the
-    dimension-scanning loop, label recovery by splitting on quotes, `numpy.fromstring(readline().strip(), count=prod(shape))`,
-    mask line, the constructor call with its keywords and signature defaults; `numpy.fromfile` for the array reader) equal
-    the normal forms `fromFileSpec` / `arrayFromFileSpec` for EVERY text — accepted or rejected — and both `mask_corners`. -/
-theorem C14_reader_translated (mc : Bool) (text : Str) :
-    fromFile mc text = fromFileSpec mc text ∧ arrayFromFile text = arrayFromFileSpec text :=
-  ⟨fromFile_generated mc text, arrayFromFile_generated text⟩
+/-- **T obligation, label block of the reader** (`if len(shape_spl) > next_ii + 1: pop_ids = line.split('"')[1::2] else: None`,
+    lambda-lifted by the translator): labels are the odd pieces of the RAW line split on `"`, present iff a token follows the flag. -/
+theorem C14_reader_label_block (line : Str) (toks : List Str) (n : Nat) :
+    fromFile_if2 line toks n = some (if toks.length > n + 1 then some (odds (splitOnC QUOTE line)) else none) := by
+  unfold fromFile_if2
+  by_cases h : toks.length > n + 1 <;> simp [h, QUOTE]
+
+/-- **T obligation, header block of the reader** (old/new format detection, `[int(shape_spl[0])]`, the dimension-scanning
+    `while shape_spl[next_ii] not in ['folded','unfolded']` loop incl. its IndexError / ValueError, the `folded` flag, the label
+    block): the generated block IS `parseHeader`, for every line. -/
+theorem C14_reader_header_block (line : Str) : fromFile_if1 line (splitWs line) = parseHeader line := by
+  unfold fromFile_if1 parseHeader
+  generalize splitWs line = toks
+  have hF : (['f', 'o', 'l', 'd', 'e', 'd'] : Str) = FOLDED := rfl
+  have hU : (['u', 'n', 'f', 'o', 'l', 'd', 'e', 'd'] : Str) = UNFOLDED := rfl
+  simp only [hU]
+  simp only [hF]
+  by_cases hc : (!toks.contains FOLDED && !toks.contains UNFOLDED) = true
+  · simp only [hc, if_true]
+    cases toks.mapM parseInt <;> rfl
+  · simp only [hc, if_false, Bool.false_eq_true]
+    cases toks with
+    | nil => rfl
+    | cons t0 ts =>
+      simp only [idx, List.getElem?_cons_zero, Option.bind_some]
+      cases hp : parseInt t0 with
+      | none => rfl
+      | some d0 =>
+        simp only [Option.bind_some, whileNotInAppendInt, List.drop_succ_cons, List.drop_zero, scanInts_scanDims]
+        cases hs : scanDims ts with
+        | none => rfl
+        | some r =>
+          obtain ⟨ds, f, after⟩ := r
+          obtain ⟨hflag, hlen⟩ := scanDims_shape ts ds f after hs
+          simp only [Option.map_some, Option.bind_some, List.singleton_append]
+          have hi : (t0 :: ts)[1 + ds.length]? = some (if f then FOLDED else UNFOLDED) := by
+            rw [Nat.add_comm, List.getElem?_cons_succ]; exact hflag
+          rw [hi]
+          simp only [Option.bind_some, C14_reader_label_block]
+          have hfold : ((if f then FOLDED else UNFOLDED) == FOLDED) = f := by
+            cases f
+            · simp [flag_ne]
+            · simp
+          rw [hfold]
+          have hgt : ((t0 :: ts).length > 1 + ds.length + 1) = ¬ (after.isEmpty = true) := by
+            simp only [List.length_cons, hlen, List.isEmpty_iff]
+            cases after <;> simp <;> omega
+          simp only [hgt]
+          cases after <;> simp
+
+/-- **T obligation, mask block of the reader** (`if not maskline: mask = None else: numpy.fromstring(maskline, count=prod(shape))
+    .reshape(*shape)`, then passed as `mask=` to the constructor): the generated block IS `maskOfLine`. -/
+theorem C14_reader_mask_block (shape : List Nat) (hs : shape ≠ []) (l : Str) :
+    (fromFile_if3 shape (strip l)).bind maskArg
+      = maskOfLine (prodL shape) (splitWs l) := by
+  unfold maskOfLine
+  unfold fromFile_if3
+  rw [strip_isEmpty]
+  by_cases h : splitWs l = []
+  · simp [h, maskArg]
+  · simp only [h, decide_false, Bool.false_eq_true, if_false, npProdCount, if_neg hs, Option.bind_some, fromstring,
+      splitWs_strip]
+    cases hr : readCount (prodL shape) (splitWs l) with
+    | none => rfl
+    | some ts =>
+      have := readCount_length _ _ _ hr
+      simp [reshape, this, maskArg]
+
+/-- **T obligation for `Spectrum.from_file`.**  The reader GENERATED statement by statement from the current source (open,
+    `readline`, the comment loop `while line.startswith('#'): comments.append(line[1:].strip())`, header split and block,
+    `numpy.fromstring(fid.readline().strip(), count=numpy.prod(shape), sep=' ')`, `reshape`, mask line, the constructor call
+    `Spectrum(data, mask, mask_corners, data_folded=folded, pop_ids=pop_ids)` bound against the signature and defaults of
+    `Spectrum.__new__`, the returned pair) equals the normal form `fromFileSpec` for EVERY text — accepted or rejected — and
+    both `mask_corners`.  Any change of a translated reader statement breaks this (or one of the block theorems above). -/
+theorem C14_reader_translated (mc : Bool) (text : Str) : fromFile mc text = fromFileSpec mc text := by
+  unfold fromFile fromFileSpec openText
+  generalize linesOf (univNL text) = ls
+  simp only [readline_eq]
+  have hw := whileStartsWith_hash (fun line => strip (List.drop 1 line)) ls []
+  simp only [List.nil_append] at hw
+  rw [hw]
+  simp only [C14_reader_header_block, lineAt, List.drop_zero, List.drop_drop, Nat.reduceAdd]
+  have hcm : (fun line => strip (List.drop 1 line)) = commentOf := rfl
+  rw [hcm]
+  generalize ls.dropWhile startsHash = rest
+  cases hh : parseHeader (rest.headD []) with
+  | none => rfl
+  | some r =>
+    obtain ⟨shape, folded, labels⟩ := r
+    simp only [Option.bind_some]
+    by_cases hs : shape = []
+    · simp [hs, npProdCount]
+    · simp only [npProdCount, if_neg hs, Option.bind_some, fromstring, splitWs_strip]
+      cases hr : readCount (prodL shape) (splitWs ((rest.drop 1).headD [])) with
+      | none => rfl
+      | some data =>
+        have hlen := readCount_length _ _ _ hr
+        simp only [Option.bind_some, reshape, hlen, if_true]
+        have hm := C14_reader_mask_block shape hs ((rest.drop 2).headD [])
+        rw [← Option.bind_assoc, hm]
+        cases hmask : maskOfLine (prodL shape) (splitWs ((rest.drop 2).headD [])) with
+        | none => rfl
+        | some mask =>
+          simp only [Option.bind_some]
+          cases construct (PyVal.arr shape data) mask (PyVal.bool mc) (PyVal.bool folded) (PyVal.bool true)
+            (labelsVal labels) PyVal.none <;> rfl
+
+/-- **T obligation for `Numerics.array_from_file`** (comment loop, `tuple([int(d) for d in line.split()])`,
+    `numpy.fromfile(fid, count=numpy.prod(shape), sep=' ')` reading across line ends, `reshape`): equals `arrayFromFileSpec`
+    for every text. -/
+theorem C14_array_reader_translated (text : Str) : arrayFromFile text = arrayFromFileSpec text := by
+  unfold arrayFromFile arrayFromFileSpec openText
+  generalize linesOf (univNL text) = ls
+  simp only [readline_eq]
+  have hw := whileStartsWith_hash (fun line => strip (List.drop 1 line)) ls []
+  simp only [List.nil_append] at hw
+  rw [hw]
+  simp only [lineAt, List.drop_zero]
+  have hcm : (fun line => strip (List.drop 1 line)) = commentOf := rfl
+  rw [hcm]
+  generalize ls.dropWhile startsHash = rest
+  cases hh : (splitWs (rest.headD [])).mapM parseInt with
+  | none => rfl
+  | some shape =>
+    simp only [Option.bind_some]
+    by_cases hs : shape = []
+    · simp [hs, npProdCount]
+    · simp only [npProdCount, if_neg hs, Option.bind_some, fromfileText, reshape, List.length_take]
+      generalize splitWs (rest.drop 1).flatten = toks
+      by_cases hlt : toks.length < prodL shape
+      · have : ¬ (min (prodL shape) toks.length = prodL shape) := by omega
+        simp only [if_pos hlt, if_neg this]; rfl
+      · have : min (prodL shape) toks.length = prodL shape := by omega
+        simp only [if_neg hlt, if_pos this]; rfl
 
 /-- **to_file → from_file.**  For every well-formed spectrum (≥ 1 dimension, entries are tokens, one mask bit per entry,
     labels — if any — one per dimension and free of `"` and line breaks) and all comment lines without line breaks, reading
@@ -82,7 +208,7 @@ theorem C14_roundtrip (fs : Spec) (comments : List Str) (mc : Bool) (h : WellFor
     · exact clean_headerLine _ _ _ _ hlab
     · exact clean_join _ (fun t ht => clean_of_noWs (h.toks t ht).2)
     · exact clean_maskLine _
-  rw [C14_writer_lines, fromFile_generated]
+  rw [C14_writer_lines, C14_reader_translated]
   unfold fromFileSpec
   rw [lines_of_text _ hclean]
   simp only [toFileLines, if_true, List.map_append, List.map_cons, List.map_nil, List.append_assoc, List.cons_append,
@@ -171,7 +297,7 @@ theorem C14_old_format (fs : Spec) (comments : List Str) (mc : Bool) (hs : fs.sh
     · have : headerLine fs.shape fs.folded fs.popIds false = dimsPart fs.shape := by simp [headerLine]
       rw [this]; exact clean_dimsPart _
     · exact clean_join _ (fun t h => clean_of_noWs (ht t h).2)
-  rw [C14_writer_lines, fromFile_generated]
+  rw [C14_writer_lines, C14_reader_translated]
   unfold fromFileSpec
   rw [lines_of_text _ hclean]
   simp only [toFileLines, Bool.false_eq_true, if_false, List.append_nil, List.map_append, List.map_cons, List.map_nil,
@@ -215,7 +341,7 @@ theorem C14_array_rw (shape : List Nat) (dataRow : List Str) (comments : List St
     · exact clean_commentLine (hc c hcm)
     · exact clean_dimsPart _
     · exact clean_join _ (fun t h => clean_of_noWs (ht t h).2)
-  rw [C14_array_writer_lines, arrayFromFile_generated]
+  rw [C14_array_writer_lines, C14_array_reader_translated]
   unfold arrayFromFileSpec
   rw [lines_of_text _ hclean]
   simp only [arrayToFileLines, List.map_append, List.map_cons, List.map_nil]
@@ -302,7 +428,7 @@ theorem C14_array_reader_rejects_new_format (fs : Spec) (comments : List Str) (h
     · exact clean_headerLine _ _ _ _ hlab
     · exact clean_join _ (fun t ht => clean_of_noWs (h.toks t ht).2)
     · exact clean_maskLine _
-  rw [C14_writer_lines, arrayFromFile_generated]
+  rw [C14_writer_lines, C14_array_reader_translated]
   unfold arrayFromFileSpec
   rw [lines_of_text _ hclean]
   simp only [toFileLines, if_true, List.map_append, List.map_cons, List.map_nil, List.append_assoc, List.cons_append,
